@@ -67,7 +67,8 @@ def run_case(case):
     wins = [1200, 1800, 2400, 3600, 60000, 12 * int(rng.integers(49, 300))]
     wsel = [1200] + [int(v) for v in rng.choice(wins[1:], 2, replace=False)]
     compress = rng.random() < 0.25
-    label0 = f"{kind} gain={gain[0]}/{gain[1]} ns={ns} layout={mode} compress={compress}"
+    cbin_orig = rng.random() < 0.25
+    label0 = f"{kind} gain={gain[0]}/{gain[1]} ns={ns} layout={mode} compress={compress} original={'cbin' if cbin_orig else 'bin'}"
     # reference: whole-trace zero-phase low-pass, then every 12th sample, in integer units
     sos = scipy.signal.butter(N=2, Wn=0.2, btype="lowpass", output="sos")
     ref = scipy.signal.sosfiltfilt(sos, raw[:, :384].astype(np.float64), axis=0)[::12]
@@ -77,6 +78,12 @@ def run_case(case):
         root = d / f"w{w}"
         b, rec = np2.build(rng, root, kind=kind, ns=ns, gain=gain, sites=sites, raw=raw)
         label = f"{label0} window={w}"
+        if cbin_orig:
+            import mtscomp
+            mtscomp.compress(b, out=b.with_suffix(".cbin"), outmeta=b.with_suffix(".ch"), sample_rate=rec.fs, n_channels=rec.nc, dtype=np.int16,
+                             chunk_duration=0.05, check_after_compress=False)
+            b.unlink()
+            b = b.with_suffix(".cbin")
         try:
             conv = neuropixel.NP2Converter(b, post_check=False, compress=compress, delete_original=False)
             conv.init_params(nwindow=w)
